@@ -123,6 +123,20 @@ def file_traces(tid0, res, encoding, meta, desc):
                 views.append(('S', folder + '/' + fn, ok_s, want, list(sc.count_years.items())))
             elif cat == 'X':
                 views.append(('S', folder + '/' + fn, ok_s, want, list(sc.count_context_sensitive.items())))
+    # --- what the trainer MEANT to write (its in-memory counters) against what is on disk (neutral reading): values only
+    pp = res['captured'].get('pcfg_parser')
+    if pp is not None:
+        mem = {'Alpha': pp.count_alpha, 'Capitalization': pp.count_alpha_masks, 'Digits': pp.count_digits, 'Other': pp.count_other,
+               'Keyboard': pp.count_keyboard}
+        for folder, ctrs in mem.items():
+            for n_, c_ in ctrs.items():
+                path_ = os.path.join(d, folder, '%d.txt' % n_)
+                disk = [(v, 0.0) for v, _ in rulesets.neutral_value_prob(path_, encoding)] if os.path.exists(path_) else []
+                views.append(('T', folder + '/%d.txt (trainer memory vs disk)' % n_, os.path.exists(path_), [(v, 0.0) for v in c_], disk))
+        for folder, c_ in (('Years', pp.count_years), ('Context', pp.count_context_sensitive)):
+            path_ = os.path.join(d, folder, '1.txt')
+            disk = [(v, 0.0) for v, _ in rulesets.neutral_value_prob(path_, encoding)] if os.path.exists(path_) else []
+            views.append(('T', folder + '/1.txt (trainer memory vs disk)', os.path.exists(path_) or not c_, [(v, 0.0) for v in c_], disk))
     # --- OMEN
     od = os.path.join(d, 'Omen')
     try:
